@@ -185,6 +185,7 @@ fn main() {
         std::process::exit(replay_parse(&run, &all_targets(), &v["case"], &|_, _, _| {}));
     }
     let thorough = run.tier == Tier::Thorough;
+    vcommon::en::WRAP_LIES.store(true, std::sync::atomic::Ordering::Relaxed);
     let d = run.tier.pick(1, 2);
     let sfx = std_suffixes();
     let mut sink = Sink::new();
